@@ -362,11 +362,15 @@ pub fn solve(seed: u64, n: usize, out: &str) {
                 (tau, l, rr, false, "clamped")
             }
             4 => {
-                // least squares: more sites than coefficients
-                let m = nn + 2 + r.below(6) as usize;
-                let mut tau: Vec<f64> = (0..m).map(|q| a + (b - a) * q as f64 / (m - 1) as f64).collect();
-                tau[0] = a;
-                tau[m - 1] = b;
+                // least squares: more sites than coefficients - the Greville sites (one per coefficient: full rank whatever the
+                // knot spacing) and some of the midpoints between them
+                let g = greville(&t, k);
+                let mut tau = vec![];
+                for w in 0..g.len() {
+                    tau.push(g[w]);
+                    if w + 1 < g.len() && g[w + 1] > g[w] && r.chance(0.6) { tau.push(0.5 * (g[w] + g[w + 1])); }
+                }
+                if tau.len() == g.len() { tau.insert(1, 0.5 * (g[0] + g[1])); }
                 (tau, 0, 0, true, "least-squares")
             }
             6 => {
